@@ -112,7 +112,7 @@ def ensure_generated():
         subprocess.run([sys.executable, os.path.join(ROOT, "gen", "gen_abi.py"), os.path.join(HARNESS, "genabi"), empty], check=True,
                        stdout=subprocess.PIPE)
 
-def cargo_build(pkg, release=False, timeout=3000, features=None):
+def cargo_build(pkg, release=False, timeout=9000, features=None):
     ensure_generated()
     cmd = ["cargo", "build", "--offline", "-p", pkg]
     if release:
